@@ -18,11 +18,14 @@ PROPS = {
         floor={'quick': 1000, 'thorough': 10000},
     ),
     'C04': dict(
-        runs=[dict(src='c04_closed_file.c')],
+        runs=[dict(src='c04_closed_file.c'), dict(src='c04_big_files.c')],
         level='exploration',
         rule=('case = (container, encoding, endian, channels, sample rate, N, write partition, garbage in SF_INFO.frames at open); write, close, '
               're-open: compare channels/format/byte order/rate (quantised by the container\'s documented unit), N <= F < N+B, read-to-EOF == F, '
-              'RIFF/FORM size fields == file size. distinct = hash of the parameters'),
+              'RIFF/FORM size fields == file size. distinct = hash of the parameters. Second monitor (c04_big_files): the containers with 64-bit or no size fields '
+              '(RF64 with and without SFC_RF64_AUTO_DOWNGRADE, W64, CAF, AU, IRCAM, PVF, PAF, NIST) x sample-granular encodings x 1-2 channels grown past 2 GiB and 4 GiB '
+              '(and past 2^31 / 2^32 frames for 1-byte mono) through the real write calls into a sparse virtual-I/O store; frame count, parameters, '
+              'the audio around offsets 0 / 2^31 / 2^32 / end, and a start-to-end read are compared'),
         assumptions=COMMON_ASSUME + ['block lengths B and rate-field units are harness tables written from the format documents (vh.h, c04)',
                                      'SD2 covered by C14 (path route) only'],
         floor={'quick': 1000, 'thorough': 10000},
@@ -165,13 +168,16 @@ PROPS = {
         timeout={'quick': 3000, 'thorough': 20000},
     ),
     'C11': dict(
-        runs=[dict(src='c11_header_update.c')],
+        runs=[dict(src='c11_header_update.c'), dict(src='c11_big_files.c')],
         level='fault_enumeration',
         rule=('case = (container with a header, encoding except ALAC, channels, update mode in {SFC_UPDATE_HEADER_NOW after every call, '
               'SFC_SET_UPDATE_HEADER_AUTO, sf_write_raw + auto, sf_write_raw + explicit}, write pattern in {1-7 frames, around one block, > staging buffer, mixed}, '
               'sample type); EVERY call boundary of the run (up to 46) is a crash point: the backing store is copied and parsed by a second handle; parameters, '
               'frame count in [whole blocks written, frames written] and decoded prefix are compared with the finished file, and the finished file with a run '
-              'without updates. distinct = hash(format, ch, type, mode, pattern, frames written at the crash point)'),
+              'without updates. distinct = hash(format, ch, type, mode, pattern, frames written at the crash point). Second monitor (c11_big_files): the same crash-point '
+              'snapshots while RF64 (with and without auto-downgrade), W64, CAF, AU, IRCAM, PVF, PAF, NIST files grow past 2 GiB and 4 GiB through the real write calls '
+              '(sparse virtual-I/O store): ~15 crash points inside each of the islands straddling file offsets 2^31 and 2^32, where 32-bit size fields, the RIFF->RF64 '
+              'switch and the ds64 chunk come into play'),
         assumptions=COMMON_ASSUME + ['crash = loss of the writer process right after the call returned: the virtual-I/O store is exactly what the library handed to the I/O layer',
                                      'block codecs may report any count between the whole blocks written and the frames written'],
         floor={'quick': 500, 'thorough': 2000},
